@@ -259,6 +259,80 @@ func (env *rEnv) call(n *rNode) Value {
 		cc := App(SBytes, "b.concat", argT(0), argT(1))
 		env.post.fact(Not(Eq(cc, nullB)))
 		return sym(cc)
+	case "cursorWhere":
+		// cursorWhere(i, id): the WHERE clause of the i-th SELECT cursor opened on this path holds for row id
+		if idx, ok := constIndex(env.eval(n.Args[0])); ok {
+			k := 0
+			for _, ev := range env.post.trace {
+				info, _ := ev.Extra.(*StmtInfo)
+				if ev.Kind == "sql" && info != nil && info.Kind == "select" && info.Cursor != nil {
+					if k == idx {
+						c := &evalCtx{e: e, st: env.post, params: info.Cursor.Params, table: "documents"}
+						id := argT(1)
+						c.row, c.id = Select(info.Cursor.Docs, id, SRow), id
+						return sym(And(rowPresent(c.row), c.where(info.Stmt.Where)))
+					}
+					k++
+				}
+			}
+			return env.fail("no cursor %d on this path", idx)
+		}
+	case "cursorOrderBy":
+		// cursorOrderBy(i, "cas"): the i-th cursor is ordered by exactly that column, ascending
+		if idx, ok := constIndex(env.eval(n.Args[0])); ok && n.Args[1].Op == "str" {
+			k := 0
+			for _, ev := range env.post.trace {
+				info, _ := ev.Extra.(*StmtInfo)
+				if ev.Kind == "sql" && info != nil && info.Kind == "select" && info.Cursor != nil {
+					if k == idx {
+						ob := info.Stmt.OrderBy
+						good := len(ob) == 1 && ob[0].Op == "col" && strings.EqualFold(ob[0].Name, n.Args[1].Text) && !info.Stmt.OrderDesc[0]
+						return sym(BoolLit(good))
+					}
+					k++
+				}
+			}
+			return sym(TFalse)
+		}
+	case "cursorCount":
+		k := 0
+		for _, ev := range env.post.trace {
+			info, _ := ev.Extra.(*StmtInfo)
+			if ev.Kind == "sql" && info != nil && info.Kind == "select" && info.Cursor != nil {
+				k++
+			}
+		}
+		return sym(IntLit(int64(k)))
+	case "cursorRow":
+		if env.post.lastCursor.S == "" {
+			return env.fail("no cursor row on this path")
+		}
+		return sym(Select(env.post.lastCursorDocs, env.post.lastCursor, SRow))
+	case "cursorId":
+		if env.post.lastCursor.S == "" {
+			return env.fail("no cursor row on this path")
+		}
+		return sym(env.post.lastCursor)
+	case "lastpushed":
+		// the FeedEv most recently pushed on a queue on this path
+		for i := len(env.post.trace) - 1; i >= 0; i-- {
+			if env.post.trace[i].Kind == "list.pushfront" {
+				return sym(env.post.trace[i].Terms["ev"])
+			}
+		}
+		return env.fail("nothing was pushed on this path")
+	case "bytesof":
+		r := App(SBytes, "b.ofstr", argT(0))
+		env.post.fact(Not(Eq(r, nullB)))
+		return sym(r)
+	case "listlen":
+		if l, _, ok := e.listObj(env.st(), env.eval(n.Args[0])); ok {
+			return sym(l.Len)
+		}
+		return env.fail("listlen of non-list")
+	case "listnil":
+		v := env.eval(n.Args[0])
+		return sym(e.isNilTerm(env.st(), v))
 	case "b2i":
 		return sym(Ite(argT(0), IntLit(1), IntLit(0)))
 	case "looksjson":
@@ -291,6 +365,23 @@ func (env *rEnv) call(n *rNode) Value {
 		return sym(BoolLit(len(env.post.locks) == 0))
 	case "intxn":
 		return sym(BoolLit(env.post.txn != nil))
+	case "iter":
+		// iter("kind"): number of trace events of that kind since the head of the enclosing loop iteration
+		if n.Args[0].Op == "str" {
+			from := 0
+			if env.iterKey != "" {
+				from = env.post.loopMark[env.iterKey]
+			} else {
+				from = len(env.post.trace)
+			}
+			c := 0
+			for i := from; i < len(env.post.trace); i++ {
+				if env.post.trace[i].Kind == n.Args[0].Text {
+					c++
+				}
+			}
+			return sym(IntLit(int64(c)))
+		}
 	case "count":
 		// count("kind"): number of trace events of that kind on this path
 		if n.Args[0].Op == "str" {
